@@ -211,6 +211,10 @@ fn raw_item(bound_class: bool) -> BoxedStrategy<RawItem> {
             7 => Just(5u8),  // unknown
             1 => Just(6u8),  // unknown_badname
             8 => Just(7u8),  // invalid_json
+            6 => Just(8u8),  // bash
+            6 => Just(9u8),  // shell (alias of bash)
+            2 => Just(10u8), // Write
+            2 => Just(11u8), // "write "
         ]
         .boxed()
     };
@@ -288,6 +292,12 @@ fn arguments_for(kind: u8, tag: &str, call_id: &str) -> (String, String, String)
         2 => ("read".into(), "read".into(), json!({"path": format!("seed/{tag}.txt")}).to_string()),
         3 => ("read_missing".into(), "read".into(), json!({"path": format!("missing/{tag}.txt")}).to_string()),
         4 => ("ls".into(), "ls".into(), json!({"path": "seed", "include": [format!("{tag}*")]}).to_string()),
+        8 => ("bash".into(), "bash".into(), json!({"command": format!("mkdir -p calls; echo {call_id} >> calls/{tag}.txt")}).to_string()),
+        // the alias the registry also knows the bash tool by: a tool choice that names `bash` bars it
+        9 => ("shell_alias".into(), "shell".into(), json!({"command": format!("mkdir -p calls; echo {call_id} >> calls/{tag}.txt")}).to_string()),
+        // names that differ from a declared tool only by case / padding: not that tool
+        10 => ("write_other_case".into(), "Write".into(), json!({"path": format!("calls/{tag}.txt"), "content": format!("{call_id}\n"), "append": true}).to_string()),
+        11 => ("write_padded_name".into(), "write ".into(), json!({"path": format!("calls/{tag}.txt"), "content": format!("{call_id}\n"), "append": true}).to_string()),
         5 => ("unknown".into(), "frobnicate".into(), json!({"tag": tag}).to_string()),
         6 => ("unknown_badname".into(), "frob.nicate".into(), json!({"tag": tag}).to_string()),
         _ => (
@@ -434,6 +444,10 @@ fn tc_strategy() -> BoxedStrategy<Tc> {
         10 => Just(Tc::Required),
         9 => Just(Tc::Function("write".into())),
         7 => Just(Tc::Function("read".into())),
+        4 => Just(Tc::Function("bash".into())),
+        3 => Just(Tc::Function("shell".into())),
+        3 => Just(allowed(&["bash", "read"], None)),
+        2 => Just(allowed(&["shell", "write"], Some("auto"))),
         6 => Just(allowed(&["write"], None)),
         4 => Just(allowed(&["write"], Some("required"))),
         6 => Just(allowed(&["read", "ls"], Some("auto"))),
@@ -1173,7 +1187,7 @@ async fn run_async(case: &Case) -> CaseReport {
     let mut executed_writes = 0u64;
     for (tix, turn) in case.turns.iter().enumerate() {
         for (i, it) in turn.items.iter().enumerate() {
-            if it.name != "write" {
+            if !matches!(it.name.as_str(), "write" | "bash" | "shell" | "Write" | "write ") {
                 continue;
             }
             let path = ws.join("calls").join(format!("{}.txt", it.tag));
